@@ -324,11 +324,11 @@ class C20(C.ProgramDiff):
         names = ['a%d' % i for i in range(r['arity'])]
         if r.get('bound_method') and r['style'] != 'inferred-wrapped':
             src = 'class Table:\n    def f(%s):\n        return solutions([%s])\n' % (', '.join(['self'] + names), ', '.join(names))
-            ns = {'solutions': solutions}
+            ns = {'solutions': solutions, '__name__': 'userpreds'}      # like functions of an ordinary user module
             exec(src, ns)
             return ns['Table']().f          # the only reference to the object is the bound method itself
         src = 'def f(%s):\n    return solutions([%s])\n' % (', '.join(names), ', '.join(names))
-        ns = {'solutions': solutions}
+        ns = {'solutions': solutions, '__name__': 'userpreds'}      # like functions of an ordinary user module
         exec(src, ns)
         if r['style'] == 'inferred-wrapped':
             # an ordinary transparent decorator: the arity is that of the wrapped function
